@@ -5,6 +5,8 @@ package props
 import (
 	"fmt"
 	"runtime/metrics"
+	"syscall"
+	"time"
 
 	"verif/internal/hx"
 )
@@ -115,4 +117,69 @@ func shortStrings(alpha []byte, maxLen int, f func(b []byte)) {
 		}
 	}
 	rec(nil)
+}
+
+// cpuTime is the CPU time (user + system) this worker process has consumed: unlike wall-clock
+// time it does not grow while the process waits for a core.
+func cpuTime() time.Duration {
+	var ru syscall.Rusage
+	if syscall.Getrusage(syscall.RUSAGE_SELF, &ru) != nil {
+		return 0
+	}
+	return time.Duration(ru.Utime.Nano() + ru.Stime.Nano())
+}
+
+func cpuOf(f func()) (time.Duration, *hx.Panic) {
+	t0 := cpuTime()
+	pn := hx.Try(f)
+	return cpuTime() - t0, pn
+}
+
+// scalingRun decides "time proportional to the input size" for one input family without a
+// wall-clock threshold: the same decoder runs on an input of n units and on one of 8n units. Linear
+// (or n log n) work costs about 8 times as much; quadratic work 64 times. An alarm needs all of:
+// the large input costs more than 2 s of CPU (best of three), and more than 20 times the small one
+// (best of three) plus those 2 s. Anything faster than 2 s passes at once, so the unchanged tree
+// spends milliseconds here and cannot fail through machine load.
+func scalingRun(c *hx.Ctx, prop, entry, class string, n int, mk func(n int) []byte, f func(in []byte)) {
+	if !c.Next() {
+		return
+	}
+	c.Label(entry + " scaling " + class)
+	small, big := mk(n), mk(8*n)
+	tBig, pn := cpuOf(func() { f(big) })
+	if pn != nil {
+		c.Outcome("panic")
+		c.Violation(fmt.Sprintf("%s %s: %s", prop, entry, pn.String()), map[string]any{"entry": entry, "input_class": class, "input_bytes": len(big)})
+		return
+	}
+	c.Tick()
+	if tBig < 2*time.Second {
+		c.Outcome("scales")
+		c.Nontrivial([]byte(entry), []byte(class), []byte("scaling"))
+		return
+	}
+	tSmall := time.Duration(1 << 62)
+	for i := 0; i < 3; i++ {
+		t, _ := cpuOf(func() { f(small) })
+		c.Tick()
+		if t < tSmall {
+			tSmall = t
+		}
+	}
+	for i := 0; i < 2 && tBig > 20*tSmall+2*time.Second; i++ {
+		t, _ := cpuOf(func() { f(big) })
+		c.Tick()
+		if t < tBig {
+			tBig = t
+		}
+	}
+	if tBig > 20*tSmall+2*time.Second {
+		c.Outcome("superlinear")
+		c.Violation(fmt.Sprintf("%s %s: time is not proportional to the input size (%s)", prop, entry, class),
+			map[string]any{"entry": entry, "input_class": class, "small_input_bytes": len(small), "large_input_bytes": len(big), "cpu_small": tSmall.String(), "cpu_large": tBig.String()})
+		return
+	}
+	c.Outcome("scales")
+	c.Nontrivial([]byte(entry), []byte(class), []byte("scaling"))
 }
